@@ -21,13 +21,13 @@ Theorem C07_dispatcher_total :
 Proof. exact handle_frame_total. Qed.
 Print Assumptions C07_dispatcher_total.
 
-(* the current code violates it: LCP frame 01 01 00 00 (declared length 0) panics *)
+(* historical witness (fixed in 7065ffb): the code before that commit panicked on LCP frame 01 01 00 00 (declared length 0) *)
 Theorem C07_dispatcher_total_refuted :
   exists cfg proto payload, handle_frame Defective cfg proto payload = Panic.
 Proof. exact handle_frame_refuted. Qed.
 Print Assumptions C07_dispatcher_total_refuted.
 
-(* the repair changes nothing except turning exactly those panics into the length-mismatch error *)
+(* the fix (7065ffb) changed nothing except turning exactly those panics into the length-mismatch error *)
 Theorem C07_dispatcher_repair_conservative :
   forall cfg proto payload,
   handle_frame Defective cfg proto payload = handle_frame Repaired cfg proto payload \/
